@@ -66,6 +66,10 @@ static const Image IMAGES[] = {
   {"transpose,s1/3", 0, 1, 1, 0, 0, 0, 1, 3, true},
 };
 static const int NIMG = sizeof(IMAGES) / sizeof(IMAGES[0]);
+// scaling by 2^-20 (exact): the vertex spacing (2e-6) falls below the absolute tolerance 1e-5 with which
+// PolyElem decides that a vertex list is already closed.  Closed input goes to the ordinary channel,
+// open input to a channel of its own ("obstiny").
+static const Image TINY = {"s2^-20", 1, 0, 0, 1, 0, 0, 1.0 / 1048576.0, 1, false};
 
 static inline double mapx(const Image& m, long X, long Y) { return (double)(m.a * X + m.b * Y + m.tx) * m.mul / m.div; }
 static inline double mapy(const Image& m, long X, long Y) { return (double)(m.c * X + m.d * Y + m.ty) * m.mul / m.div; }
@@ -259,11 +263,33 @@ static void runPoly(const Value& c, const std::vector<Pt>& q0, const std::vector
       cnt++;
     }
   }
+  Obs obsTiny;
+  if (lvl == "full" && !big)
+  {
+    PolyElem closed = makeElem(TINY, v, true, TEST, TEST);
+    Polygons Pc, Po;
+    Pc.addPolyElem(closed);
+    Po.addPolyElem(makeElem(TINY, v, false, TEST, TEST));
+    std::string s1(nq, '.'), s2(nq, '.'), s3(nq, '.');
+    VectorDouble c2(2);
+    for (int i = 0; i < nq; i++)
+    {
+      if (skip[i]) continue;
+      c2[0] = mapx(TINY, q[i].x, q[i].y); c2[1] = mapy(TINY, q[i].x, q[i].y);
+      s1[i] = Pc.inside(c2, false) ? '1' : '0';
+      s2[i] = closed.inside(c2) ? '1' : '0';
+      s3[i] = Po.inside(c2, false) ? '1' : '0';
+    }
+    obs.add(s1, "s2^-20|ord0|Polygons(closed).inside");
+    obs.add(s2, "s2^-20|ord0|PolyElem(closed).inside");
+    obsTiny.add(s3, "s2^-20|ord0|Polygons(open).inside");
+  }
   Value o = Value::object();
   o["id"] = Value(id);
   o["n"] = Value(obs.n);
   o["obs"] = obs.json();
   if (wantSel) { o["nsel"] = Value(obsSel.n); o["obssel"] = obsSel.json(); }
+  if (obsTiny.n) o["obstiny"] = obsTiny.json();
   fprintf(out, "%s\n", vj::dump(o).c_str());
 }
 
